@@ -214,13 +214,22 @@ func (o *c09Obj) Disasm(file string, start, end uint64, intel bool) ([]plugin.In
 	return nil, errors.New("no disassembler")
 }
 
-type c09Fetch struct{ p *profile.Profile }
+// c09Fetch serves the profile under the source name "c09prof" and base profiles under "c09base<i>".
+type c09Fetch struct {
+	p     *profile.Profile
+	bases []*profile.Profile
+}
 
 func (f c09Fetch) Fetch(src string, d, t time.Duration) (*profile.Profile, string, error) {
-	if src != "c09prof" {
-		return nil, "", errors.New("unknown source " + src)
+	if src == "c09prof" {
+		return f.p.Copy(), "", nil
 	}
-	return f.p.Copy(), "", nil
+	for i, b := range f.bases {
+		if src == fmt.Sprintf("c09base%d", i) {
+			return b.Copy(), "", nil
+		}
+	}
+	return nil, "", errors.New("unknown source " + src)
 }
 
 type c09Run struct {
@@ -237,6 +246,12 @@ var c09InprocMu sync.Mutex // the driver's option set is process-wide: one in-pr
 
 // c09PProf runs driver.PProf in-process on profile p with the given flags and scripted lines.
 func c09PProf(p *profile.Profile, flags []string, lines []string) *c09Run {
+	return c09PProfB(p, nil, flags, lines)
+}
+
+// c09PProfB is c09PProf with base profiles available as sources c09base0, c09base1, … (the flags
+// name them: -base=c09base0 / -diff_base=c09base0).
+func c09PProfB(p *profile.Profile, bases []*profile.Profile, flags []string, lines []string) *c09Run {
 	c09InprocMu.Lock()
 	defer c09InprocMu.Unlock()
 	ui := newC09UI(lines)
@@ -252,7 +267,7 @@ func c09PProf(p *profile.Profile, flags []string, lines []string) *c09Run {
 		r.Err = driver.PProf(&plugin.Options{
 			Writer:  r.W,
 			Flagset: newC09Flags(append(append([]string{}, flags...), "c09prof")),
-			Fetch:   c09Fetch{p},
+			Fetch:   c09Fetch{p, bases},
 			Obj:     r.Obj,
 			UI:      ui,
 			HTTPServer: func(a *plugin.HTTPServerArgs) error {
